@@ -30,6 +30,26 @@ Section StateM.
   (* swallow every exception (engine.io's bare except around handlers) *)
   Definition contain (m : M unit) : M unit :=
     fun s => match m s with (s1, e1, _) => (s1, e1, Ok tt) end.
+  (* try: m finally: f *)
+  Definition finallyM {A} (m : M A) (f : M unit) : M A :=
+    fun s => match m s with
+             | (s1, e1, r) => match f s1 with
+                              | (s2, e2, Ok _) => (s2, e1 ++ e2, r)
+                              | (s2, e2, Err x) => (s2, e1 ++ e2, Err x)
+                              end
+             end.
+  (* run every element, remember the first exception, report it at the end *)
+  Fixpoint forM_keep {A} (l : list A) (f : A -> M unit) (first : option exn) : M (option exn) :=
+    match l with
+    | [] => ret first
+    | x :: r => fun s => match f x s with
+                         | (s1, e1, res) =>
+                             let first' := match first, res with
+                                           | None, Err e => Some e | _, _ => first end in
+                             match forM_keep r f first' s1 with
+                             | (s2, e2, out) => (s2, e1 ++ e2, out) end
+                         end
+    end.
   Fixpoint forM {A} (l : list A) (f : A -> M unit) : M unit :=
     match l with
     | [] => ret tt
